@@ -226,4 +226,37 @@ func runC15(c *Ctx) {
 		}
 		c.Case("common", L(S("common"), L(in...)), obs, m >= 2, "op:common")
 	}
+	// CommonValueType on lists of 3..5 units of ONE family in every order (the finest must win
+	// wherever it stands)
+	r := c.R
+	for k := 0; k < c.Budget(300, 8000); k++ {
+		ut := measurement.UnitTypes[r.Intn(len(measurement.UnitTypes))]
+		m := 3 + r.Intn(3)
+		var ts []*profile.ValueType
+		var in []Term
+		for j := 0; j < m; j++ {
+			u := ut.Units[r.Intn(len(ut.Units))]
+			al := measurement.VerifAliases(u)
+			name := u.CanonicalName
+			if len(al) > 0 {
+				name = al[r.Intn(len(al))]
+			}
+			if r.P(1, 3) {
+				name += "s"
+			}
+			ts = append(ts, &profile.ValueType{Type: "cpu", Unit: name})
+			in = append(in, L(S("cpu"), S(name)))
+		}
+		res, err := measurement.CommonValueType(ts)
+		var obs Term
+		switch {
+		case err != nil:
+			obs = L(S("err"))
+		case res == nil:
+			obs = L(S("nil"))
+		default:
+			obs = L(S("ok"), S(res.Type), S(res.Unit))
+		}
+		c.Case("common-family", L(S("common"), L(in...)), obs, true, "op:common")
+	}
 }
